@@ -76,6 +76,12 @@ func HDeterminism() {
 	for r := 0; r < reps; r++ {
 		vMapOrderSite(site)
 		cB, jeB := vBuildProject(doc, vLayoutFiles)
+		// the serialisations of B run under the perturbed site too (their own range-over-map
+		// sites are numbered after those of the build)
+		jsonB, oaB := "", ""
+		if jeB == nil {
+			jsonB, oaB = vSerialise(cB, 0), vSerialise(cB, 2)
+		}
 		if vSymbolic() && vMapOrderSites() <= site {
 			vReach("no-such-site") // the driver stops increasing the site number
 		}
@@ -87,6 +93,9 @@ func HDeterminism() {
 			vAssert(jeA.Error() == jeB.Error(), "c06-include-trace-depends-on-map-order")
 		} else {
 			vSameDigest(vEmit(cA), vEmit(cB), "c06-catalog-depends-on-map-order") // with the examples the emitter writes
+			// and the bytes of the serialisations themselves
+			vAssert(vSerialise(cA, 0) == jsonB, "c06-tojson-bytes-depend-on-map-order")
+			vAssert(vSerialise(cA, 2) == oaB, "c06-openapi-bytes-depend-on-map-order")
 		}
 	}
 	if jeA != nil {
